@@ -143,6 +143,8 @@ func hdrStmt(ctx, name, e string) string {
 		return fmt.Sprintf("func %s() {\nfor ; p; x = %s {\ng0()\n}\n}\n", name, e)
 	case "switch-tag":
 		return fmt.Sprintf("func %s() {\nswitch %s {\ncase 1:\ng0()\n}\n}\n", name, e)
+	case "switch-tag-self":
+		return fmt.Sprintf("func %s() {\nswitch %s {\n}\n}\n", name, e)
 	case "switch-init":
 		return fmt.Sprintf("func %s() {\nswitch t := %s; t {\ncase 1:\ng0()\n}\n}\n", name, e)
 	case "tswitch-x":
@@ -333,6 +335,10 @@ func (hb *hdrBuilder) build(p hdrPoint) (name string, fail string) {
 		cb.Then().Case().Val(1).Then()
 		g0()
 		cb.End().End()
+	case "switch-tag-self":
+		cb.Switch()
+		e()
+		cb.Then().End()
 	case "switch-init":
 		cb.Switch().DefineVarStart(token.NoPos, "t")
 		e()
